@@ -231,6 +231,12 @@ def expression(draw, profiles, depth: int, in_cds: bool = False) -> list:
         if in_cds:
             return draw(leaf(profiles, in_cds))
         inner = draw(expression(profiles, min(depth - 1, draw(st.sampled_from([1, 1, 2]))), True))
+        if len(profiles) >= 4 and draw(st.integers(0, 3)) == 0:
+            # a cds() whose contents begin and end with a parenthesised group: cds((a or b) and (c or d))
+            names = draw(st.permutations(list(profiles)))[:4]
+            low, high = draw(st.sampled_from([("or", "and"), ("and", "or")]))
+            inner = [high, [["group", [low, [["id", names[0]], ["id", names[1]]]]],
+                            ["group", [low, [["id", names[2]], ["id", names[3]]]]]]]
         if inner[0] not in ("and", "or"):
             other = ["id", draw(st.sampled_from(profiles))]
             if rules.canon(other) == rules.canon(inner):
